@@ -23,6 +23,51 @@ class Kinds:
     self._ret = {}
     self._field = {}
     self._busy = set()
+    self._sites = None
+    self._ctor_sites = None
+    self._value_names = None
+
+  # -- call sites over the whole package (for parameters of private helpers and fields of value classes) --
+  def _all_functions(self):
+    out = []
+    work = list(self.repo.functions.values())
+    while work:
+      g = work.pop()
+      out.append(g)
+      work.extend(g.nested.values())
+    return out
+
+  def site_index(self):
+    if self._sites is None:
+      self._sites, self._ctor_sites, self._value_names = {}, {}, set()
+      for g in self._all_functions():
+        ctx = FuncCtx.of(g)
+        for n in ctx.g.nodes:
+          for e in ctx.node_exprs(n):
+            callfuncs = set()
+            for sub in walk_no_nested(e):
+              if isinstance(sub, ast.Call):
+                callfuncs.add(id(sub.func))
+                t = self.T.callee(g, sub, n)
+                if t and t[0] == 'func':
+                  self._sites.setdefault(t[1].qualname, []).append((g, sub, n))
+                elif t and t[0] == 'class':
+                  self._ctor_sites.setdefault(t[1].qualname, []).append((g, sub, n))
+            for sub in walk_no_nested(e):
+              if id(sub) in callfuncs:
+                continue
+              if isinstance(sub, ast.Name) and isinstance(sub.ctx, ast.Load):
+                self._value_names.add(sub.id)
+              elif isinstance(sub, ast.Attribute) and isinstance(sub.ctx, ast.Load):
+                self._value_names.add(sub.attr)
+    return self._sites
+
+  def _arg_at(self, call, idx, name):
+    if any(isinstance(a, ast.Starred) for a in call.args) or any(k.arg is None for k in call.keywords):
+      return None
+    if 0 <= idx < len(call.args):
+      return call.args[idx]
+    return au.kwarg(call, name)
 
   def kind(self, f, e, at=None, depth=60):
     if depth <= 0 or e is None:
@@ -79,6 +124,17 @@ class Kinds:
         if el is not None and flds is not None and e.attr in flds and flds.index(e.attr) < len(el):
           g_, x_ = el[flds.index(e.attr)]
           return self.kind(g_, x_, None, depth - 1)
+        # field of a parameter annotated with a namedtuple type: what every construction site passes
+        args = self.T.nt_attr_args(f, e, at)
+        if args:
+          key = ('ntfield', norm(e), f.qualname)
+          if key in self._busy:
+            return None
+          if True:
+            self._busy.add(key)
+            ks = {self.kind(g_, a_, n_, depth - 1) for g_, a_, n_ in args}
+            self._busy.discard(key)
+            return ks.pop() if len(ks) == 1 else None
       if base is not None:
         if base.qualname == 'tbrmmdesignparameters.TBRMMDesignParameters':
           return 'py'    # validated isinstance(value, int/float) (C17.R2)
@@ -252,11 +308,44 @@ class Kinds:
       return b is not None and b.qualname == 'tbrmmdesignparameters.TBRMMDesignParameters'
     return False
 
-  def param_kind(self, f, name):
+  def param_kind(self, f, name, depth=20):
     for a in f.node.args.posonlyargs + f.node.args.args + f.node.args.kwonlyargs:
       if a.arg == name and a.annotation is not None and norm(a.annotation) == 'int':
         return 'py'
-    return None
+    # a private helper (or a nested function) that is only ever called: the kind its callers pass, when they agree
+    private = f.outer is not None or (f.name.startswith('_') and not f.name.startswith('__'))
+    if not private or f.kind in ('getter', 'setter') or f.node.args.vararg or depth <= 0:
+      return None
+    key = ('param', f.qualname, name)
+    if key in self._ret:
+      return self._ret[key]
+    if key in self._busy:
+      return None
+    sites = self.site_index().get(f.qualname, [])
+    if not sites or f.name in self._value_names:
+      return None
+    self._busy.add(key)
+    idx = f.params.index(name) - (1 if f.kind in ('method', 'classmethod') else 0)
+    defaults = {}
+    pos = f.node.args.posonlyargs + f.node.args.args
+    for a, d in zip(pos[len(pos) - len(f.node.args.defaults):], f.node.args.defaults):
+      defaults[a.arg] = d
+    for a, d in zip(f.node.args.kwonlyargs, f.node.args.kw_defaults):
+      if d is not None:
+        defaults[a.arg] = d
+    ks = set()
+    for g, call, n in sites:
+      a = self._arg_at(call, idx, name)
+      if a is None and name in defaults and not any(isinstance(x, ast.Starred) for x in call.args) and all(k.arg for k in call.keywords):
+        ks.add(self.kind(f, defaults[name], None, depth - 1) if isinstance(defaults[name], ast.Constant) else None)
+      elif a is None:
+        ks.add(None)
+      else:
+        ks.add(self.kind(g, a, n, depth - 1))
+    self._busy.discard(key)
+    r = ks.pop() if len(ks) == 1 else None
+    self._ret[key] = r
+    return r
 
   def elem_kind(self, f, it, at, depth):
     """Kind of the elements of an iterated expression."""
@@ -328,10 +417,34 @@ class Kinds:
             if isinstance(t, ast.Attribute) and isinstance(t.value, ast.Name) and t.value.id == sn and t.attr == name \
                 and not au.is_const(s.value, None):
               ks.add(self.kind(g, s.value, None, depth - 1))
+    if not ks and name in cls.annotations and '__init__' not in cls.methods and (cls.is_dataclass or any(b.split('.')[-1] == 'NamedTuple' for b in cls.bases)):
+      # value class (NamedTuple / dataclass without its own constructor): the field is what the construction sites pass
+      self.site_index()
+      idx = cls.field_order.index(name)
+      for g, call, n in self._ctor_sites.get(cls.qualname, []):
+        a = self._arg_at(call, idx, name)
+        if a is None:
+          dflt = cls.attrs.get(name)
+          ks.add(self.kind(g, dflt, None, depth - 1) if isinstance(dflt, ast.Constant) else None)
+        else:
+          ks.add(self.kind(g, a, n, depth - 1))
+      # dataclasses.replace(obj, field=...) / obj._replace(field=...) also set it
+      if name in self._replace_fields():
+        ks.add(None)
     self._busy.discard(key)
     r = ks.pop() if len(ks) == 1 else None
     self._ret[key] = r
     return r
+
+  def _replace_fields(self):
+    if getattr(self, '_replaced', None) is None:
+      self._replaced = set()
+      for g in self._all_functions():
+        for sub in ast.walk(g.node):
+          if isinstance(sub, ast.Call) and norm(sub.func).split('.')[-1] in ('replace', '_replace'):
+            for k in sub.keywords:
+              self._replaced.add(k.arg)
+    return self._replaced
 
 
 def _orig_arg(call, x):
